@@ -22,7 +22,12 @@ pub uninterp spec fn signalled(ch: int) -> bool;
 
 pub assume_specification<T>[ std::sync::mpsc::channel::<T> ]() -> (r: (Sender<T>, Receiver<T>))
     ensures tx_chan(&r.0) == rx_chan(&r.1);
+// Releasing the successor is a capability (premise P3 of L-ORDER: no write of writer k after its Drop(k) event):
+// only SequentialWriter::drop is given may_signal(); a write/flush that signalled would let the next
+// response start while this writer can still write.
+pub uninterp spec fn may_signal(ch: int) -> bool;
 pub assume_specification<T>[ Sender::<T>::send ](s: &Sender<T>, t: T) -> (r: Result<(), std::sync::mpsc::SendError<T>>)
+    requires may_signal(tx_chan(s)),
     ensures signalled(tx_chan(s));
 // A-CHAN: a recv on a turn channel returns only after the (single) sender has sent, and that
 // sender is owned by the predecessor writer, whose drop sends before the field is dropped.
@@ -119,6 +124,8 @@ impl<W: Write + Send> SequentialWriter<W> {
         signalled(old(self).finish_chan()),
         // ... O-DROP-WAITS (premise P2 of L-ORDER): but only after this writer's own predecessor has finished
         old(self).pred_chan() is Some ==> finished(old(self).pred_chan()->Some_0),
+//@entry
+        proof { assume(may_signal(self.finish_chan())); }   // drop is THE release point of this writer's turn
 //@before? 1 self . on_finish . send
         proof { assert(old(self).pred_chan() is Some ==> finished(old(self).pred_chan()->Some_0)); }
 //@endfn
